@@ -9,7 +9,7 @@ import itertools
 
 from ..core import AnchorError, call_name, decorators, norm, short, own_nodes, kwarg, FUNC_TYPES
 from ..cfg import cfg_of
-from ..lib import calls_in, stmts_in, gate, must_pass, node_has, params, none_accept, effective_body, path_summaries
+from ..lib import calls_in, stmts_in, gate, must_pass, node_has, params, none_accept, effective_body, path_summaries, sorted_returns
 from ..summaries import check_summary
 
 NAMES = 'jedi.inference.names'
@@ -158,8 +158,8 @@ def rule_d(repo, chk):
     chk.ob('C17.d', ok, g, 'the result is filter(<predicate>, names)')
     check_summary(repo, chk, 'C17.d', CLS, 'Name.is_definition')
     nm = repo.find('jedi.api', 'Script._names')
-    srt = [c for c in calls_in(nm, 'sorted')]
-    ok = len(srt) == 1 and 'start_pos' in norm(kwarg(srt[0], 'key'))
+    srt = sorted_returns(repo, nm)
+    ok = bool(srt) and all(kf is not None and kf[0] == ['%s.start_pos' % kf[1]] for _r, kf in srt)
     chk.ob('C17.d', ok, nm, '_names returns the names sorted by position')
     gm = [c for c in calls_in(nm, 'get_module_names', nested=True)]
     ok = len(gm) == 1 and [k.arg for k in gm[0].keywords] == ['all_scopes', 'definitions', 'references'] and \
